@@ -129,6 +129,8 @@ u8_t runcrypt::verify(size_t fsize)
   u8_t *hash = header.getHmac(64);
   if (hash == NULL)
     return 1;
+  if (header.getctype() > 4 || header.gethtype() > 2)
+    return 3;
   fseek(fin, FILE_IV_MARK, SEEK_SET);
   if (!hmachandle.cmphmac(header.gethtype(), key, fin, hash, fsize))
     return 2;
